@@ -113,7 +113,8 @@ class C01(Property):
                 elif r < 0.9:
                     nm = rng.choice(gen.PROP_NAMES)
                     if nm not in cur:
-                        ops.append({'k': 'add', 'n': nm, 's': rng.choice(['match', 'any'])})
+                        # the property is created directly, or arrives with an upgrade of the event type (Ontology.update)
+                        ops.append({'k': rng.choice(['add', 'addu']), 'n': nm, 's': rng.choice(['match', 'any'])})
                         cur.append(nm)
                 elif len(cur) > 1:
                     nm = rng.choice(cur)
@@ -149,6 +150,17 @@ class C01(Property):
                     et[op['n']].set_merge_strategy(op['s'])
                 elif op['k'] == 'add':
                     et.create_property(op['n'], 'o').make_optional().make_multivalued().set_merge_strategy(op['s'])
+                elif op['k'] == 'addu':
+                    # a newer version of the ontology that differs by the added property only, merged into this one
+                    from lxml import etree
+                    from edxml.ontology import Ontology
+                    doc = etree.fromstring('<edxml xmlns="http://edxml.org/edxml" version="3.0.0"/>')
+                    doc.append(o.generate_xml())
+                    o2 = Ontology.create_from_xml(etree.fromstring(etree.tostring(doc))[0])
+                    et2 = o2.get_event_type('t')
+                    et2.create_property(op['n'], 'o').make_optional().make_multivalued().set_merge_strategy(op['s'])
+                    et2.set_version(et.get_version() + 1)
+                    o.update(o2)
                 elif op['k'] == 'del':
                     et.remove_property(op['n'])
                 outs.append(None)
@@ -172,7 +184,7 @@ class C01(Property):
     # ---- model ---------------------------------------------------------------------------
     def requests(self, case):
         if case['kind'] == 'memo':
-            return [{'op': 'memo', 'props': case['ptypes'], 'ops': case['ops']}]
+            return [{'op': 'memo', 'props': case['ptypes'], 'ops': [dict(op, k='add') if op['k'] == 'addu' else op for op in case['ops']]}]
         hashed = [n for n, m in case['ptypes'] if m == 'match']
         return [{'op': 'hash', 'fn': case['fn'], 'enc': case['enc'], 'hashed': hashed, 'event': case['event']}]
 
@@ -195,7 +207,7 @@ class C01(Property):
             for op in case['ops']:
                 if op['k'] == 'set':
                     cur = [[n, op['s'] if n == op['n'] else m] for n, m in cur]
-                elif op['k'] == 'add':
+                elif op['k'] in ('add', 'addu'):
                     cur.append([op['n'], op['s']])
                 elif op['k'] == 'del':
                     cur = [p for p in cur if p[0] != op['n']]
